@@ -385,9 +385,12 @@ fn determine_worker_count(config: &config::Encoder) -> Result<usize, SourceError
         .and_then(|s| s.parse::<usize>().ok())
         .filter(|&n| n > 0) // zero workers would never finish.
         .unwrap_or(default_parallelism);
+    // An absurdly large request must not overflow the buffer count or exhaust
+    // the process with threads.
     Ok(config
         .workers
-        .map_or(default_parallelism, NonZeroUsize::get))
+        .map_or(default_parallelism, NonZeroUsize::get)
+        .min(constant::par::MAX_WORKERS))
 }
 
 /// Parallel version of `encode_with_fixed_block_size`.
